@@ -4,11 +4,13 @@ spec -> code: TLC enumerates (a) every short sequence of record fields in both e
 every format over small ranges, checks the framing / presence / conservation laws in the specification and prints
 each case with the expected frame counts, record sequence, field calls and container manifest; the harness runs the
 real writers and readers once per case and compares.  code -> spec: long random field histories recorded from the
-real record writers are validated by TLC against CcccRecord_trace.
+real record writers are validated by TLC against CcccRecord_trace.  Shipped fixture files are re-written and
+byte-compared.
 """
+import concurrent.futures
 import json
 import os
-import random
+import re
 
 from harness import common, tlc, tracecheck
 from harness import replay as rp
@@ -18,7 +20,8 @@ from harness.armi_env import armi_ready
 MODDIR = os.path.join(common.SPEC, "cccc")
 REC_ACTIONS = ("Open", "Close", "RwInt", "RwBool", "RwLong", "RwFloat", "RwDouble", "RwString", "RwList", "RwMatrix",
                "RwLongAscii", "ReadBack")
-REC_INVARIANTS = "HeadEqualsTail HeadEqualsPayload PayloadIsSum CountersRestart CallsAreFields ReaderAcceptsOwn"
+FORMATS = ("GEODST", "DIF3D", "NHFLUX", "LABELS", "PWDINT", "RTFLUX", "RZFLUX", "FIXSRC", "ISOTXS", "GAMISO", "PMATRX", "DLAYXS", "COMPXS")
+FMT_GROUPS = ("a", "b", "c")
 
 
 def _tlc_verdict(rep, label, res):
@@ -26,6 +29,31 @@ def _tlc_verdict(rep, label, res):
     if res.violation:
         rep.violation("tlc:" + res.violation["name"], "TLC: %s violated in the specification (%s)" % (res.violation["name"], label),
                       {"direction": "tlc", "trace": res.violation["trace"][:20000]})
+
+
+def launch(thorough, only=None):
+    """All TLC runs of the tier, a few at a time (each is single-threaded except the exhaustive record config)."""
+    t = "_thorough" if thorough else ""
+    jobs = {
+        "rec_mc": ("CcccRecord_mc", "CcccRecord_mc%s.cfg" % t, dict(workers=8, coverage=False, want_prints=False)),
+        "rec_mc2": ("CcccRecord_mc", "CcccRecord_mc2.cfg", dict(workers=2, coverage=True, want_prints=False)),
+        "rec_emit": ("CcccRecord_mc", "CcccRecord_emit%s.cfg" % t, dict(workers=1, coverage=False)),
+        "rec_vals": ("CcccRecord_mc", "CcccRecord_emit_values.cfg", dict(workers=1, coverage=False)),
+        "rec_two": ("CcccRecord_mc", "CcccRecord_emit_two.cfg", dict(workers=1, coverage=False)),
+    }
+    for g in FMT_GROUPS:
+        jobs["fmt_" + g] = ("CcccFormats_mc", "CcccFormats_emit_%s%s.cfg" % (g, t), dict(workers=1, coverage=False))
+    if thorough:
+        jobs["fmt_mc"] = ("CcccFormats_mc", "CcccFormats_mc_thorough.cfg", dict(workers=8, coverage=True, want_prints=False))
+    if only:
+        jobs = {k: v for k, v in jobs.items() if k in only}
+    out = {}
+    with concurrent.futures.ThreadPoolExecutor(max_workers=5) as ex:
+        futs = {k: ex.submit(tlc.run, mod, cfg, MODDIR, timeout=3000, **kw) for k, (mod, cfg, kw) in jobs.items()}
+        for k, f in futs.items():
+            out[k] = f.result()
+            out[k].cfgname = jobs[k][1]
+    return out
 
 
 # ------------------------------------------------------------------------------------------------------------
@@ -48,25 +76,28 @@ def check_record_case(case, seed):
     """-> list of (key, text, payload) for one printed case."""
     obs, problems = G.run_record_case(case, seed)
     out = []
+    base = {"direction": "replay", "layer": "record", "case": case, "case_seed": seed}
     if obs is None:
-        for k, t in problems:
-            out.append((k, t, {"direction": "replay", "layer": "record", "case": case, "case_seed": seed}))
-        return out
+        return [(k, t, dict(base)) for k, t in problems]
     exp = {"recs": [{"head": r["head"], "tail": r["tail"], "len": r["len"], "framelen": r["framelen"], "calls": r["calls"]}
                     for r in case["recs"]],
            "same": case["same"], "short": case["short"], "long": case["long"]}
     exp["streamlen"] = sum(r["framelen"] for r in case["recs"])
     d = rp.diff(exp, obs)
+    wide = False
     if d:
-        what = d.split(":")[0].strip(".")
-        what = what.split(".")[-1] if "." in what else what
-        import re as _re
-
-        what = _re.sub(r"\[\d+\]", "", what)
-        out.append((record_key(case, obs, what), "real record diverges from CcccRecord: %s" % d,
-                    {"direction": "replay", "layer": "record", "case": case, "observed": obs, "first_difference": d, "case_seed": seed}))
-    for k, t in problems:
-        out.append((k, t, {"direction": "replay", "layer": "record", "case": case, "observed": obs, "case_seed": seed}))
+        what = re.sub(r"\[\d+\]", "", d.split(":")[0]).strip(".").split(".")[-1]
+        key = record_key(case, obs, what)
+        wide = key.startswith("ascii:width:")
+        if wide:
+            text = ("ASCII record: a value is printed wider than its fixed field (%s): the stream has %d characters, the format %d; "
+                    "the fixed-width reader cannot find the next field" % (obs["width_class"], obs["streamlen"], exp["streamlen"]))
+        else:
+            text = "real %s record diverges from CcccRecord: %s" % ("binary" if case["enc"] == "bin" else "ASCII", d)
+        out.append((key, text, dict(base, observed=obs, first_difference=d)))
+    if not wide:
+        for k, t in problems:
+            out.append((k, t, dict(base, observed=obs)))
     return out
 
 
@@ -78,35 +109,29 @@ def _tags(case):
     return {(case["enc"], f["k"]) for r in case["recs"] for f in r["fields"]}
 
 
-def run_records(rep, thorough, seed):
-    # exhaustive: laws of the record machine
-    for cfg in (["CcccRecord_mc_thorough.cfg"] if thorough else ["CcccRecord_mc.cfg"]) + ["CcccRecord_mc2.cfg"]:
-        cov = cfg == "CcccRecord_mc2.cfg"       # -coverage doubles the cost; non-vacuity is read off the small config
-        res = tlc.run("CcccRecord_mc", cfg, MODDIR, want_prints=False, timeout=3000, coverage=cov)
-        _tlc_verdict(rep, "exhaustive:" + cfg, res)
-        never = [a for a in REC_ACTIONS if res.coverage.get(a, (0, 0))[1] == 0] if cov else []
-        if never:
-            raise tlc.MachineryError("vacuous: record actions never taken in %s: %s" % (cfg, never))
-    # emission: every case executed on the real classes
-    cfgs = ["CcccRecord_emit_thorough.cfg" if thorough else "CcccRecord_emit.cfg", "CcccRecord_emit_values.cfg",
-            "CcccRecord_emit_two.cfg"]
+def run_records(rep, thorough, seed, results):
+    for k in ("rec_mc", "rec_mc2"):
+        res = results[k]
+        _tlc_verdict(rep, "exhaustive:" + res.cfgname, res)
+    never = [a for a in REC_ACTIONS if results["rec_mc2"].coverage.get(a, (0, 0))[1] == 0]
+    if never:
+        raise tlc.MachineryError("vacuous: record actions never taken: %s" % never)
     n = nontriv = 0
-    atomic = {}  # (enc, kind, vc) -> key of the single-field case that already explains the divergence
+    atomic = {}  # (enc, kind) -> key of the single-field case that already explains a divergence
     sample = None
-    for cfg in cfgs:
-        res = tlc.run("CcccRecord_mc", cfg, MODDIR, workers=1, coverage=False, timeout=3000)
-        _tlc_verdict(rep, "cases:" + cfg, res)
+    for k in ("rec_emit", "rec_vals", "rec_two"):
+        res = results[k]
+        _tlc_verdict(rep, "cases:" + res.cfgname, res)
         cases = [p["case"] for p in res.prints if isinstance(p, dict) and "case" in p]
         if not cases:
-            raise tlc.MachineryError("no record cases printed by %s" % cfg)
+            raise tlc.MachineryError("no record cases printed by %s" % res.cfgname)
         cases.sort(key=_nfields)
         for i, case in enumerate(cases):
             n += 1
             nontriv += 1 if _nfields(case) else 0
-            found = check_record_case(case, seed * 1000003 + i)
             if sample is None and _nfields(case) == 3:
                 sample = case
-            for key, text, payload in found:
+            for key, text, payload in check_record_case(case, seed * 1000003 + i):
                 if key.startswith("ascii:width:"):
                     pass
                 elif _nfields(case) == 1:
@@ -140,28 +165,259 @@ def run_records(rep, thorough, seed):
     if sample:
         rep.sample({"kind": "record-case", "enc": sample["enc"], "fields": [[f["k"], f["c"], f["n"], f["w"]] for f in sample["recs"][0]["fields"]],
                     "expected": {k: sample["recs"][0][k] for k in ("head", "tail", "len", "framelen")}})
+    if traces:
+        rep.sample({"kind": "record-trace", "id": traces[0]["id"], "enc": traces[0]["enc"], "events": traces[0]["ev"][:4]})
+
+
+# ------------------------------------------------------------------------------------------------------------
+# layer 2: formats
+# ------------------------------------------------------------------------------------------------------------
+_SCRATCH = None
+
+
+def scratch():
+    global _SCRATCH
+    if _SCRATCH is None:
+        _SCRATCH = G.Scratch(common.workdir("c09"))
+    return _SCRATCH
+
+
+def check_format_case(case, seed):
+    out = []
+    for key, text, extra in G.run_format_case(case, seed, scratch()):
+        out.append((key, text, {"direction": "replay", "layer": "format", "case": case, "case_seed": seed, "enc": extra["enc"]}))
+    return out
+
+
+def run_formats(rep, thorough, seed, results):
+    n = 0
+    tags_seen, tags_absent = {}, {}
+    per_fmt = {}
+    loca_note = None
+    sampled = False
+    if "fmt_mc" in results:
+        _tlc_verdict(rep, "exhaustive:" + results["fmt_mc"].cfgname, results["fmt_mc"])
+        if results["fmt_mc"].coverage.get("EmitRecord", (0, 0))[1] == 0:
+            raise tlc.MachineryError("vacuous: EmitRecord never taken")
+    for grp in FMT_GROUPS:
+        res = results["fmt_" + grp]
+        _tlc_verdict(rep, "formats:%s" % res.cfgname, res)
+        cases = [p["case"] for p in res.prints if isinstance(p, dict) and "case" in p]
+        if not cases:
+            raise tlc.MachineryError("no format cases printed by %s" % res.cfgname)
+        for i, case in enumerate(cases):
+            fmt = case["fmt"]
+            per_fmt[fmt] = per_fmt.get(fmt, 0) + 1
+            for t, cnt in case["counts"].items():
+                (tags_seen if cnt > 0 else tags_absent).setdefault(fmt, set()).add(t)
+            n += 1
+            for key, text, payload in check_format_case(case, seed * 7919 + i):
+                rep.violation(key, text, payload)
+            if fmt == "ISOTXS" and loca_note is None and case["h"]["nNuc"] == 2 and case["h"]["nsblok"] == 2 and 1 in case["h"]["ords"]:
+                got = G.isotxs_loca(case, seed, scratch())
+                if got is not None and got != case["loca"]:
+                    loca_note = ("observation outside the statement: ISOTXS 2D record LOCA (records to skip per nuclide) is written as %s for "
+                                 "header %s; with NSBLOK sub-blocks per scattering block CCCC-IV counts %s (isotxs.py "
+                                 "_computeNumIsotxsRecords ignores sub-blocking; the reader ignores LOCA)" % (got, json.dumps(case["h"]), case["loca"]))
+            if not sampled and fmt == "GEODST" and case["h"].get("IGOM") == 6:
+                sampled = True
+                rep.sample({"kind": "format-case", "fmt": fmt, "header": case["h"], "records": [[r["tag"], r["bytes"]] for r in case["recs"]],
+                            "binlen": case["binlen"], "asclen": case["asclen"]})
+    missing = [f for f in FORMATS if f not in per_fmt]
+    if missing:
+        raise tlc.MachineryError("vacuous: no cases for formats %s" % missing)
+    for fmt, tags in tags_seen.items():
+        never = [t for t in tags_absent.get(fmt, ()) if t not in tags]
+        if never:
+            raise tlc.MachineryError("vacuous: %s records %s never present in any enumerated header" % (fmt, never))
+    if loca_note:
+        rep.note(loca_note)
+    rep.extra["format_cases"] = per_fmt
+    rep.add_replay("format-cases", n, n,
+                   "for every header TLC enumerates a container is built from the printed manifest, written (binary and ASCII) by the "
+                   "real writer, the file's frame sequence is compared with the grammar, read back and compared datum by datum, "
+                   "re-written and byte-compared, and the rw* calls of writer and reader are compared with the grammar's fields")
+
+
+def run_fixtures(rep, thorough):
+    n = 0
+    for fx in G.fixtures(thorough):
+        n += 1
+        for key, text in G.run_fixture(fx, scratch()):
+            rep.violation(key, text, {"direction": "fixture", "layer": "fixture", "fixture": fx["name"]})
+    rep.add_replay("fixtures", n, n, "files shipped with armi are read, re-written and byte-compared, directly and through the other encoding")
 
 
 def run(rep, tier, seed):
     thorough = tier == "thorough"
     armi_ready()
-    tlc.sany("CcccRecord_mc", MODDIR)
-    tlc.sany("CcccRecord_trace", MODDIR)
-    run_records(rep, thorough, seed)
+    for m in ("CcccRecord_mc", "CcccRecord_trace", "CcccFormats_mc"):
+        tlc.sany(m, MODDIR)
+    results = launch(thorough)
+    run_records(rep, thorough, seed, results)
+    run_formats(rep, thorough, seed, results)
+    run_fixtures(rep, thorough)
     rep.exhaustive = True
+    rep.assume(
+        "well-formed values: 32-bit integers; strings of printable ASCII, no longer than the field, without trailing blanks "
+        "(Hollerith fields are blank padded and rwString strips trailing blanks on read)",
+        "format cases use ordinary magnitudes (|int| < 1e9, two-digit decimal exponents, float32-exact reals); numeric extremes are "
+        "exercised field by field in the record layer (value classes of CcccRecord)",
+        "the grammar is the documented format (CCCC-IV PRESENT-IF conditions quoted in the armi docstrings); features armi refuses "
+        "explicitly (chi matrices, LABELS control-rod/burnup records, 1-D RTFLUX, VARIANT iwnhfl=2) and ISOTXS blocks with LORD > 1 "
+        "are outside the domain",
+        "ISOTXS/GAMISO file label: normalised to 'ISOTXS' by the reader on purpose (_updateFileLabel); containers carry that label, "
+        "and the label bytes of armi/tests/ISOAA are masked in the fixture comparison",
+        "ASCII fixtures are compared in text mode (labels.ascii is checked in with CRLF line ends)",
+        "tolerances: reals of kind float come back within 2^-24 relative (IEEE single) in the binary encoding, every other value exactly",
+    )
 
 
 def replay(payload):
     armi_ready()
-    if payload.get("layer") == "record":
+    layer = payload.get("layer")
+    if layer == "record" and payload.get("direction") == "replay":
         found = check_record_case(payload["case"], payload.get("case_seed", 0))
-        for key, text, _ in found:
-            print(key, "::", text)
-        print("diverges" if found else "no divergence: case conforms")
-        return 1 if found else 0
-    print("replay of direction=%s: see payload" % payload.get("direction"))
-    return 0
+    elif layer == "format":
+        found = check_format_case(payload["case"], payload.get("case_seed", 0))
+    elif layer == "fixture":
+        fx = [f for f in G.fixtures(True) if f["name"] == payload["fixture"]]
+        found = [(k, t, None) for k, t in G.run_fixture(fx[0], scratch())] if fx else []
+    else:
+        print("replay of direction=%s: see payload (TLC trace / recorded trace)" % payload.get("direction"))
+        return 0
+    for key, text, _ in found:
+        print(key, "::", text)
+    print("diverges" if found else "no divergence: case conforms")
+    return 1 if found else 0
+
+
+# ------------------------------------------------------------------------------------------------------------
+# binding demonstration: in-process mutants of the anchored code; caught = a violation key the unmutated tree lacks
+# ------------------------------------------------------------------------------------------------------------
+def _patch(owner, name, old, new):
+    """Re-define owner.name from its own source with `old` replaced by `new`; returns the undo function."""
+    import inspect
+    import textwrap
+
+    orig = owner.__dict__[name] if isinstance(owner, type) else getattr(owner, name)
+    fn = orig.__func__ if isinstance(orig, (staticmethod, classmethod)) else orig
+    src = textwrap.dedent(inspect.getsource(fn))
+    for o, n in ([(old, new)] if isinstance(old, str) else old):
+        if o not in src:
+            raise tlc.MachineryError("mutant does not apply: %r not in %s.%s" % (o, getattr(owner, "__name__", owner), name))
+        src = src.replace(o, n)
+    ns = {}
+    exec(compile(src, "<mutant %s>" % name, "exec"), fn.__globals__, ns)  # noqa: S102
+    setattr(owner, name, ns[name])
+    return lambda: setattr(owner, name, orig)
+
+
+def mutants():
+    from armi.nuclearDataIO import cccc as pkg
+    from armi.nuclearDataIO.cccc import cccc, dif3d, dlayxs, geodst, isotxs, labels, nhflux, pmatrx, rtflux
+
+    R = ("record",)
+    return [
+        ("rwDouble-counts-4", "BinaryRecordWriter.rwDouble advances the frame counter by 4 instead of 8", R + ("DIF3D",),
+         lambda: _patch(cccc.BinaryRecordWriter, "rwDouble", "self.numBytes += self._floatSize * 2", "self.numBytes += self._floatSize")),
+        ("rwString-counts-len-val", "BinaryRecordWriter.rwString counts len(val) instead of the field width", R,
+         lambda: _patch(cccc.BinaryRecordWriter, "rwString", "self.numBytes += length * self._characterSize", "self.numBytes += len(val)")),
+        ("close-omits-trailer", "BinaryRecordWriter.close writes no trailing count", R,
+         lambda: _patch(cccc.BinaryRecordWriter, "close", "    if self._hasRecordBoundaries:\n        self._stream.write(packedNumBytes)\n    self.data = None",
+                        "    self.data = None")),
+        ("reader-keeps-padding", "BinaryRecordReader.rwString does not strip the blank padding", R + ("LABELS",),
+         lambda: _patch(cccc.BinaryRecordReader, "rwString", "s.rstrip().decode()", "s.decode()")),
+        ("ascii-string-unpadded", "AsciiRecordWriter.rwString does not pad to the field width", R + ("LABELS",),
+         lambda: _patch(cccc.AsciiRecordWriter, "rwString", '" {value:<{length}}".format(length=length, value=val)', '" {value}".format(value=val)')),
+        ("rwList-writer-drops-last", "IORecord.rwList moves n-1 items when contents are given (writer) and n when reading", R + ("GEODST",),
+         lambda: _patch(cccc.IORecord, "rwList", "return np.array([action(contents[ii]) for ii in range(length)])",
+                        "return np.array([action(contents[ii]) for ii in range(length - (1 if length and contents[0] is not None else 0))])")),
+        ("rwMatrix-reader-C-order", "IORecord._rwMatrix fills in C order when reading, Fortran order when writing", R + ("PWDINT", "NHFLUX"),
+         lambda: _patch(cccc.IORecord, "_rwMatrix", [
+             ("    fortranShape = list(reversed(shape))\n",
+              "    fortranShape = list(reversed(shape))\n    creading = contents is None or not np.any(contents)\n    cshape = tuple(fortranShape)\n"),
+             ("        fortranIndex = tuple(reversed(index))\n",
+              "        fortranIndex = tuple(reversed(index))\n        if creading and len(shape) > 1 and 0 not in shape:\n"
+              "            fortranIndex = np.unravel_index(np.ravel_multi_index(index, shape), cshape)\n")], None)),
+        ("geodst-5D-and", "GEODST 5D record written iff IGOM > 0 *and* NBS > 0 (the docstring's wording)", ("GEODST",),
+         lambda: _patch(geodst.GeodstStream, "readWrite", 'if geomType > 0 or self._metadata["NBS"] > 0:', 'if geomType > 0 and self._metadata["NBS"] > 0:')),
+        ("geodst-nrass-swapped", "GEODST region maps: coarse map selected by NRASS == 1, fine map by NRASS == 0", ("GEODST",),
+         lambda: _patch(geodst.GeodstStream, "readWrite", 'if self._metadata["NRASS"] == 0:\n            self._rw6DRecord()\n        elif self._metadata["NRASS"] == 1:',
+                        'if self._metadata["NRASS"] == 1:\n            self._rw6DRecord()\n        elif self._metadata["NRASS"] == 0:')),
+        ("isotxs-band-not-reversed-on-write", "ISOTXS 7D: the writer stores the band in ascending order, the reader still reverses", ("ISOTXS",),
+         lambda: _patch(isotxs._IsotxsNuclideIO, "_rw7DRecord", "for xs in reversed(scatter[g, jdown:jup].tolist()):", "for xs in scatter[g, jdown:jup].tolist():")),
+        ("isotxs-strpd-threshold", "ISOTXS 5D: STRPD vectors only moved when ISTRPD > 1", ("ISOTXS", "GAMISO"),
+         lambda: _patch(isotxs._IsotxsNuclideIO, "_rw5DRecord", 'if self._metadata["strpd"] > 0:', 'if self._metadata["strpd"] > 1:')),
+        ("isotxs-filewide-chi-flag", "ISOTXS 2D: file-wide chi vector moved when ICHIST >= 0", ("ISOTXS",),
+         lambda: _patch(isotxs.IsotxsIO, "_rw2DRecord", 'if self._metadata["fileWideChiFlag"] == 1:', 'if self._metadata["fileWideChiFlag"] >= 0:')),
+        ("labels-nsets-threshold", "LABELS 4D record present when NSETS > 0 instead of NSETS > 1", ("LABELS",),
+         lambda: _patch(labels.LabelsStream, "readWrite", 'if self._metadata["numNuclideSets"] > 1:', 'if self._metadata["numNuclideSets"] > 0:')),
+        ("nhflux-odd-moments-threshold", "NHFLUX 3D: odd-parity moments only moved when NMOMS > 1", ("NHFLUX",),
+         lambda: _patch(nhflux.NhfluxStream, "_rwFluxMoments3D", 'self._metadata["nMoms"] > 0', 'self._metadata["nMoms"] > 1')),
+        ("block-bandwidth-no-min", "getBlockBandwidth: JU = M*X without MIN0(NINTJ, .)", ("PWDINT", "RTFLUX", "RZFLUX"),
+         lambda: _patch(pkg, "getBlockBandwidth", "jHigh = min(nintj, m * x)", "jHigh = m * x")),
+        ("rtflux-single-precision", "RTFLUX 3D records moved with rwMatrix (single) instead of rwDoubleMatrix", ("RTFLUX",),
+         lambda: _patch(rtflux.RtfluxStream, "_rw3DRecord", "record.rwDoubleMatrix(", "record.rwMatrix(")),
+        ("dif3d-numorp-threshold", "DIF3D 4D record present when NUMORP > 1", ("DIF3D",),
+         lambda: _patch(dif3d.Dif3dStream, "_rw4DRecord", 'if self._data.twoD["NUMORP"] != 0:', 'if self._data.twoD["NUMORP"] > 1:')),
+        ("dlayxs-family-list-nkfam", "DLAYXS 3D: family-number list has NKFAM entries instead of 6", ("DLAYXS",),
+         lambda: _patch(dlayxs.DlayxsIO, "_rwYield", "self.dlayxs.numPrecursorGroups,", 'self.metadata["nkfam"][ii],')),
+        ("geodst-zwbb-as-float", "GEODST 5D: zonesWithBlackAbs moved as reals by writer and reader (same size, symmetric)", ("GEODST",),
+         lambda: _patch(geodst.GeodstStream, "_rw5DRecord", 'self._data.zonesWithBlackAbs, "int", self._metadata["NZWBB"]', 'self._data.zonesWithBlackAbs, "float", self._metadata["NZWBB"]')),
+        ("nhflux-variant-npcbdy-ignored", "NHFLUX 2D: VARIANT external-pointer count computed the Nodal way (NPCBDY ignored)", ("NHFLUX",),
+         lambda: _patch(nhflux.NhfluxStream, "_getNumOuterSurfacesHex", 'if self._metadata["variantFlag"]:', 'if False:')),
+        ("dlayxs-reader-label-24", "DLAYXS file id: the reader assumes a 24-character label", ("DLAYXS",),
+         lambda: _patch(dlayxs.DlayxsIO, "_rwFileID", "else fileIdRecord.numBytes", "else 24")),
+        ("reader-close-no-check", "BinaryRecordReader.close never compares the trailing count with the leading one", R,
+         lambda: _patch(cccc.BinaryRecordReader, "close", "if numBytes2 != self.numBytes:", "if False:")),
+        ("pmatrx-gamma-heating-flag", "PMATRX: gamma-heating record keyed on hasNeutronHeatingAndDamage", ("PMATRX",),
+         lambda: _patch(pmatrx._PmatrxNuclideIO, "_rwGammaHeating", 'if not self._metadata["hasGammaHeating"]:', 'if not self._metadata["hasNeutronHeatingAndDamage"]:')),
+    ]
 
 
 def selftest():
-    return 0
+    armi_ready()
+    results = launch(False, only={"rec_emit", "rec_vals", "fmt_a", "fmt_b", "fmt_c"})
+    rec_cases = [p["case"] for k in ("rec_emit", "rec_vals") for p in results[k].prints if isinstance(p, dict) and "case" in p]
+    rec_cases = [c for c in rec_cases if _nfields(c) <= 2]
+    fmt_cases = {}
+    for g in FMT_GROUPS:
+        for p in results["fmt_" + g].prints:
+            if isinstance(p, dict) and "case" in p:
+                fmt_cases.setdefault(p["case"]["fmt"], []).append(p["case"])
+
+    def keys_for(scope):
+        ks = set()
+        for what in scope:
+            if what == "record":
+                for i, c in enumerate(rec_cases):
+                    ks.update(k for k, _, _ in check_record_case(c, i))
+            else:
+                for i, c in enumerate(fmt_cases[what][:400]):
+                    try:
+                        ks.update(k for k, _, _ in check_format_case(c, i))
+                    except RuntimeError as ex:
+                        ks.add("%s:machinery:%s" % (what, str(ex)[:60]))
+        return ks
+
+    base = keys_for(("record",) + FORMATS)
+    print("baseline keys on the unmutated tree: %d" % len(base))
+    missed = 0
+    for name, desc, scope, apply in mutants():
+        undo = apply()
+        try:
+            ks = keys_for(scope)
+        finally:
+            undo()
+        new = sorted(ks - base)
+        if new:
+            print("caught  %-36s %s -> %s" % (name, desc, ", ".join(new[:3])))
+        else:
+            missed += 1
+            print("MISSED  %-36s %s" % (name, desc))
+    after = keys_for(("record",) + FORMATS)
+    if after != base:
+        raise tlc.MachineryError("mutants were not undone cleanly: %s" % sorted(after ^ base))
+    print("selftest: %d mutants, %d missed" % (len(mutants()), missed))
+    return 0 if missed == 0 else 1
